@@ -128,7 +128,7 @@ def run(ctx):
     ok = len(pb) == 1 and [e["data"] for e in pb[0].of("WRITE")] == [N.mk_ite(OBJ, N.const(b"\x01"), N.const(b"\x00"))]
     ctx.ob("C02.R1", fb, ok, "Flag._build writes one of the two canonical bytes selected by the truthiness of obj", key="Flag build")
     for cls in ("Hex", "HexDump"):
-        fi, paths = own_method_paths(ctx, cls, "_encode")
+        fi, paths = method_paths(ctx, cls, "_encode")        # (own or inherited: HexDump may be written as a subclass of Hex)
         ctx.ob("C02.R1", fi, len(paths) == 1 and paths[0].retval == OBJ, "%s._encode is the identity" % cls, key="%s encode" % cls)
     position_adapters(ctx, "C02.R1")
     ctx.floor("C02.R1", 12)
